@@ -1,13 +1,14 @@
 --------------------------- MODULE MC_FixedWindow ---------------------------
 EXTENDS FixedWindow, Json
-VARIABLE hist
-HInit == Init /\ hist = <<>>
+VARIABLES hist, init0      \* (init0: the directory found at the start; `init` restarts at a Wipe)
+HInit == Init /\ hist = <<>> /\ init0 = arch
 Snap(ar) == [k \in Idx |-> IF ar[k].k = "file" THEN ar[k].d[1] ELSE 0]
-HNext == /\ Next
+HNext == /\ Next /\ UNCHANGED init0
          /\ hist' = IF pc' = "idle" /\ pc # "idle"
                     THEN Append(hist, [content |-> rolled'[1], after |-> Snap(arch'), act_present |-> act'.k # "absent"])
+                    ELSE IF wipes' # wipes THEN Append(hist, [wipe |-> TRUE, content |-> 0, after |-> Snap(arch'), act_present |-> FALSE])
                     ELSE hist
-Terminal == pc = "idle" /\ Len(rolled) = MaxRolls
+Terminal == pc = "idle" /\ nr = MaxRolls
 Emit == Terminal => PrintT(<<"REPLAY", ToJson([base |-> Base, count |-> Count, kind |-> Kind, lo |-> Lo,
-                                                init |-> Snap(init), rolls |-> hist])>>)
+                                                init |-> Snap(init0), rolls |-> hist])>>)
 =============================================================================
